@@ -218,7 +218,7 @@ pub fn replay(ctx: &Arc<Ctx>, v: &Value) {
 
 pub fn run(ctx: &Arc<Ctx>) {
     refmodels::selftest::run(&[ctx.tier.pick("sm4", "sm4long")]).unwrap_or_else(|e| ctx.machinery_error(format!("reference self-test failed: {}", e)));
-    ctx.set_rule("keys x blocks over {0^128, 1^128, 128 single-bit, 16 byte patterns, standard vector, seeded}; derived families forcing every S-box index in every byte lane of round 1 (data path) and of the first key-schedule round; all op sequences to depth 4 over {enc b0, enc b1, dec b0, dec b1, rebuild the object with the same key / a key differing in the last byte / in the first byte, a refused decrypt / encrypt of a 15-byte block, clone-use-drop the clone, continue with a clone and drop the original} (16105 histories per base key); every value of the first and of the last byte of key and block; objects built on one thread and used (moved / Arc-shared) on fresh threads; key and block lengths 16 + 256k, 16 + 65536 refused. Oracle: independent SM4 with algebraically generated S-box.");
+    ctx.set_rule("keys x blocks over {0^128, 1^128, 128 single-bit, 16 byte patterns, standard vector, seeded}; derived families forcing every S-box index in every byte lane of round 1 (data path) and of the first key-schedule round; all op sequences to depth 4 over {enc b0, enc b1, dec b0, dec b1, rebuild the object with the same key / a key differing in the last byte / in the first byte, a refused decrypt / encrypt of a 15-byte block, clone-use-drop the clone, continue with a clone and drop the original} (16105 histories per base key); every value of the first and of the last byte of key and block; keys crafted so that round key 0..3, 13..16 or 28..31 is 0 / all ones; objects built on one thread and used (moved / Arc-shared) on fresh threads; key and block lengths 16 + 256k, 16 + 65536 refused. Oracle: independent SM4 with algebraically generated S-box.");
     let nseed = ctx.tier.pick(4, 64);
     let keys = blocks128(ctx.seed, "c02keys", nseed);
     let blocks = blocks128(ctx.seed, "c02blocks", nseed);
@@ -259,6 +259,28 @@ pub fn run(ctx: &Arc<Ctx>) {
         key[8..12].copy_from_slice(&fk[2].to_be_bytes());
         key[12..16].copy_from_slice(&fk[3].to_be_bytes());
         cases.push(Case::Block { key: hex::encode(key), block: hex::encode(std_key) });
+    }
+    // keys crafted (key schedule run backwards) so that a chosen round key is 0 or all ones: the first, the last, one in
+    // the middle. A validity test or shortcut keyed on a round-key value fires on exactly these legal keys.
+    {
+        let mut crafted = 0;
+        for j in [0usize, 13, 28] {
+            for pos in 0..4usize {
+                for v in [0u32, 0xffff_ffff] {
+                    let mut four = [0x9e37_79b9u32 ^ (j as u32), 0x7f4a_7c15, 0xf39c_c060, 0x5ced_c834 ^ (pos as u32)];
+                    four[pos] = v;
+                    let key = refmodels::sm4::key_with_round_keys(j, four);
+                    if refmodels::sm4::round_keys(&key)[j + pos] != v {
+                        ctx.machinery_error("crafted key does not have the chosen round key");
+                    }
+                    crafted += 1;
+                    for block in ["00112233445566778899aabbccddeeff", "00000000000000000000000000000000"] {
+                        cases.push(Case::Block { key: hex::encode(key), block: block.into() });
+                    }
+                }
+            }
+        }
+        ctx.cov("keys_with_a_zero_or_all_ones_round_key", json!(crafted));
     }
     for k in ["0123456789abcdeffedcba9876543210", "00000000000000000000000000000000", "ffffffffffffffffffffffffffffffff", "fedcba98765432100123456789abcdef"] {
         cases.push(Case::CrossThread { key: k.into() });
